@@ -256,3 +256,261 @@ def compare_with_clean(sc, tree, targets=None):
 def parallel(fn, items, workers=None):
     with ThreadPoolExecutor(max_workers=workers or util.NCPU) as ex:
         return list(ex.map(fn, items))
+
+
+# ------------------------------------------------------------------------------------------ C06: real runner + FIFO jobserver
+def _overlap(ev):
+    """max number of simultaneously running commands from vtool's own S/E stamps, and per pool id lists"""
+    pts = []
+    for e in ev:
+        if e["e"] == "S":
+            pts.append((e["t"], 1, e["id"]))
+        elif e["e"] in ("E", "K"):
+            pts.append((e["t"], -1, e["id"]))
+    pts.sort(key=lambda x: (x[0], x[1]))
+    cur, mx, running, maxset = 0, 0, set(), set()
+    hist = []
+    for t, d, i in pts:
+        if d > 0:
+            running.add(i)
+        else:
+            running.discard(i)
+        hist.append(set(running))
+        if len(running) > mx:
+            mx, maxset = len(running), set(running)
+    return mx, maxset, hist
+
+
+def c06_case(ctx, seed):
+    from .simlib import St
+    rng = random.Random(seed)
+    n = rng.randint(4, 9)
+    sc = {"id": "C06e-%d" % seed, "sources": {}, "stmts": [], "pools": {}, "defaults": []}
+    if rng.random() < 0.5:
+        sc["pools"]["p1"] = rng.randint(1, 2)
+    outs = []
+    for i in range(n):
+        sc["sources"]["c%d.c" % i] = "// %d\n" % i
+        st = St("s%d" % i, ["o/x%d.o" % i], ins=["c%d.c" % i] + ([rng.choice(outs)] if outs and rng.random() < 0.25 else []))
+        st["vtool_args"] = ["--sleep-after", str(rng.choice((80, 150, 250)))]
+        x = rng.random()
+        if x < 0.3 and sc["pools"]:
+            st["pool"] = "p1"
+        elif x < 0.4:
+            st["pool"] = "console"
+        sc["stmts"].append(st)
+        outs.append(st["outs"][0])
+    mode = rng.choice(("j", "j", "jobserver", "jobserver", "jobserver"))
+    path = rng.choice(("success", "failure", "sigint", "startedge"))
+    if path == "failure":
+        v = rng.choice(sc["stmts"])
+        v["vtool_args"] += ["--exit", "3"]
+    if path == "startedge":
+        # an output below a path component that is a regular file: mkdir fails with ENOTDIR inside StartEdge
+        sc["sources"]["blk"] = "i am a file\n"
+        st = St("bad", ["blk/sub/y.o"], ins=["c0.c"])
+        sc["stmts"].append(st)
+    t = Tree(sc)
+    rep = {"seed": seed, "mode": mode, "path": path}
+    what = "e2e scenario %d (%s, exit path %s)" % (seed, mode, path)
+    fifo = os.path.join(t.d, ".jobserver.fifo")
+    fd = None
+    try:
+        rep["manifest"] = open(t.path("build.ninja")).read()
+        env, args = {}, []
+        ntok = None
+        if mode == "jobserver":
+            os.mkfifo(fifo)
+            fd = os.open(fifo, os.O_RDWR | os.O_NONBLOCK)
+            ntok = rng.randint(0, 4)
+            os.write(fd, b"+" * ntok)
+            env["MAKEFLAGS"] = " -j%d --jobserver-auth=fifo:%s" % (ntok + 1, fifo)
+            limit = ntok + 1
+            args = ["-k", str(rng.choice((1, 0)))]
+        else:
+            limit = rng.choice((1, 2, 3, 8))
+            args = ["-j%d" % limit, "-k", str(rng.choice((1, 0)))]
+        p = t.popen(args, env=env)
+        thief_took = 0
+        if mode == "jobserver" and rng.random() < 0.4 and ntok:
+            # a competing client takes a token for a while and gives it back
+            time.sleep(0.05)
+            try:
+                if os.read(fd, 1):
+                    thief_took = 1
+            except OSError:
+                pass
+            time.sleep(0.2)
+            if thief_took:
+                os.write(fd, b"+")
+        if path == "sigint":
+            time.sleep(rng.random() * 0.3 + 0.05)
+            try:
+                os.kill(p.pid, signal.SIGINT)
+            except OSError:
+                pass
+        try:
+            so, se = p.communicate(timeout=WATCHDOG)
+        except subprocess.TimeoutExpired:
+            os.killpg(p.pid, signal.SIGKILL)
+            ctx.violation("C06/e2e-ninja-does-not-terminate/%s" % path, what, rep)
+            return
+        rc = p.returncode
+        ctx.evaluations += 1
+        txt = (so + se).decode("latin-1")
+        sig = util.san_signature(txt)
+        if sig:
+            ctx.violation("C06/e2e-sanitizer/" + sig, "%s: %s" % (what, txt[-1500:]), rep)
+            return
+        if "stuck" in txt:
+            ctx.violation("C06/e2e-stuck", "%s: %s" % (what, txt[-300:]), rep)
+            return
+        ev = t.events()
+        mx, mset, hist = _overlap(ev)
+        ctx.count("e2e_runs_%s_%s" % (mode, path))
+        if mx >= 2:
+            ctx.nontrivial((seed, mx))
+        if mx > limit:
+            ctx.violation("C06/e2e-over-limit/%s" % mode, "%s: %d commands ran at once (%s), limit %d" % (what, mx, sorted(mset), limit), rep)
+            return
+        sid_of = {s["outs"][0]: s for s in sc["stmts"]}
+        for running in hist:
+            for pool, depth in list(sc["pools"].items()) + [("console", 1)]:
+                k = [o for o in running if sid_of[o]["pool"] == pool]
+                if len(k) > depth:
+                    ctx.violation("C06/e2e-over-pool-depth", "%s: %s ran together in pool %s (depth %d)" % (what, k, pool, depth), rep)
+                    return
+        starts = [e["id"] for e in ev if e["e"] == "S"]
+        if len(starts) != len(set(starts)):
+            ctx.violation("C06/e2e-started-twice", "%s: %s" % (what, starts), rep)
+            return
+        if mode == "jobserver":
+            time.sleep(0.05)
+            got = 0
+            try:
+                while True:
+                    b = os.read(fd, 64)
+                    if not b:
+                        break
+                    got += len(b)
+            except OSError:
+                pass
+            ctx.count("e2e_fifo_token_checks")
+            if got != ntok:
+                ctx.violation("C06/e2e-fifo-tokens/%s" % path, "%s: the FIFO held %d tokens before and %d after ninja exited (rc %s): %s" %
+                              (what, ntok, got, rc, txt[-200:]), rep)
+                return
+        if len(ctx.samples) < 6 and mx >= 2 and mode == "jobserver":
+            ctx.sample({"scenario": what, "tokens": ntok, "max_concurrency": mx, "exit": rc})
+    finally:
+        if fd is not None:
+            os.close(fd)
+        t.close()
+
+
+def c06_scenarios(ctx):
+    rng = random.Random(ctx.seed * 13 + 606)
+    seeds = [rng.randint(1, 10 ** 9) for _ in range(48 if ctx.tier == "quick" else 1200)]
+    from .checks.c07 import safe
+    parallel(lambda s: safe(ctx, c06_case, ctx, s), seeds, workers=8)
+
+
+# ------------------------------------------------------------------------------------------ C08: the real binary's log paths
+def c08_case(ctx, seed):
+    from .simlib import St
+    from .logmodel import parse_build_log, build_log_records
+    rng = random.Random(seed)
+    n = rng.randint(30, 45)
+    sc = {"id": "C08e-%d" % seed, "sources": {"in.c": "// in\n"}, "stmts": [], "pools": {}, "defaults": []}
+    for i in range(n):
+        sc["stmts"].append(St("s%d" % i, ["o%d.o" % i], ins=["in.c"]))
+    t = Tree(sc)
+    rep = {"seed": seed}
+    what = "e2e log scenario %d" % seed
+    try:
+        rounds = rng.randint(4, 6)
+        for r in range(rounds):
+            for s in sc["stmts"]:
+                s["ver"] += 1
+            t.install(sc)
+            rc, so, se = t.run(["-j8"])
+            if rc != 0:
+                ctx.inconclusive += 1
+                return
+        log = t.read(".ninja_log")
+        nrec = len(build_log_records(log))
+        before = parse_build_log(log)[1]
+        scenario = rng.choice(("dropped-on-disk", "dropped-deleted", "restat", "recompact"))
+        ctx.evaluations += 1
+        ctx.count("e2e_log_%s" % scenario)
+        if scenario in ("dropped-on-disk", "dropped-deleted"):
+            victim = sc["stmts"].pop(rng.randrange(len(sc["stmts"])))
+            vo = victim["outs"][0]
+            t.install(sc)
+            if scenario == "dropped-deleted":
+                t.rm(vo)
+            rc, so, se = t.run(["-j4"])
+            after_bytes = t.read(".ninja_log")
+            after = parse_build_log(after_bytes)[1]
+            compacted = len(build_log_records(after_bytes)) < nrec
+            if not compacted:
+                ctx.count("e2e_log_no_recompaction")
+            else:
+                ctx.nontrivial((seed, scenario))
+            for o, rec in before.items():
+                name = o.decode()
+                live = name != vo or scenario == "dropped-on-disk"
+                if live and after.get(o) is None:
+                    ctx.violation("C08/e2e-recompaction-dropped-live-record/%s" % ("removed-from-manifest-but-on-disk" if name == vo else "in-manifest"),
+                                  "%s: %d records for %d outputs; after the next run the record of %s is gone" % (what, nrec, len(before), name), rep)
+                    return
+                if live and name != vo and after[o][0] != rec[0]:
+                    ctx.violation("C08/e2e-recompaction-changed-hash", "%s: %s" % (what, name), rep)
+                    return
+        elif scenario == "restat":
+            sel = [s["outs"][0] for s in rng.sample(sc["stmts"], rng.randint(0, 3))]
+            for o in rng.sample([s["outs"][0] for s in sc["stmts"]], 3):
+                t.touch(o)
+            rc, so, se = t.run(["-t", "restat"] + sel)
+            after = parse_build_log(t.read(".ninja_log"))[1]
+            ctx.nontrivial((seed, scenario, tuple(sel)))
+            if rc != 0:
+                ctx.violation("C08/e2e-restat-failed", "%s: rc %s %s" % (what, rc, (so + se).decode("latin-1")[-300:]), rep)
+                return
+            if set(after) != set(before):
+                ctx.violation("C08/e2e-restat-lost-records", "%s: -t restat: %d records before, %d after" % (what, len(before), len(after)), rep)
+                return
+            for o, rec in before.items():
+                a = after[o]
+                if (a[0], a[1], a[2]) != (rec[0], rec[1], rec[2]):
+                    ctx.violation("C08/e2e-restat-changed-more-than-mtime", "%s: %s %r -> %r" % (what, o, rec, a), rep)
+                    return
+                selected = not sel or o.decode() in sel
+                want = os.stat(t.path(o.decode())).st_mtime_ns if selected else rec[3]
+                if a[3] != want:
+                    ctx.violation("C08/e2e-restat-mtime", "%s: %s recorded mtime %s, file mtime %s (selected=%s)" % (what, o, a[3], want, selected), rep)
+                    return
+        else:
+            rc, so, se = t.run(["-t", "recompact"])
+            after_bytes = t.read(".ninja_log")
+            after = parse_build_log(after_bytes)[1]
+            ctx.nontrivial((seed, scenario))
+            if rc != 0 or after != before:
+                ctx.violation("C08/e2e-recompact-tool", "%s: rc %s, %d records before, %d after" % (what, rc, len(before), len(after)), rep)
+                return
+            if len(build_log_records(after_bytes)) != len(before):
+                ctx.violation("C08/e2e-recompact-not-compact", "%s: %d lines for %d outputs" % (what, len(build_log_records(after_bytes)), len(before)), rep)
+                return
+        # and the tree still converges
+        rc, so, se = t.run(["-j4"])
+        if scenario != "restat" and (rc != 0 or b"no work to do" not in so):
+            ctx.violation("C08/e2e-rebuild-after-log-operation", "%s (%s): %s" % (what, scenario, so.decode("latin-1")[-300:]), rep)
+    finally:
+        t.close()
+
+
+def c08_scenarios(ctx):
+    rng = random.Random(ctx.seed * 17 + 808)
+    seeds = [rng.randint(1, 10 ** 9) for _ in range(16 if ctx.tier == "quick" else 300)]
+    from .checks.c07 import safe
+    parallel(lambda s: safe(ctx, c08_case, ctx, s), seeds)
